@@ -275,7 +275,11 @@ def host_main(case_path, out_path):
                     wk.enqueue(*inp)
                     enq.append((id(wk), inp[0] if inp else None))
                     return True
-                live_before = [w for w in ws if 'obj' in w and os_alive(w) and any(o is w['obj'] for o in pool.workers)]
+                # registered workers that can take work: alive in the OS and not merely lingering after they have ended their work
+                # (a process that took the linger-poison has reported its end - the pool has seen it off - but is still there)
+                lingering = set(int(f.split('.')[1]) for f in os.listdir(flagdir) if f.startswith('linger.'))
+                live_before = [w for w in ws if 'obj' in w and os_alive(w) and any(o is w['obj'] for o in pool.workers)
+                               and not (w['kind'] != 'thread' and w['pids'] and w['pids'][-1] in lingering)]
                 st['fresh_dead'] = len([w for w in ws if 'obj' in w and any(o is w['obj'] for o in pool.workers)
                                         and not os_alive(w) and id(w['obj']) not in recorded])
                 oc, r = bounded(lambda: pool.run(iter(inputs), enqueue_fn=efn))
@@ -374,15 +378,15 @@ def host_main(case_path, out_path):
                     res['truncated'] = 'op %s not applicable on this tree' % op
                     break
                 stick_n[0] += 1
-                nflags = len(os.listdir(flagdir))
+                nflags = len([f for f in os.listdir(flagdir) if f.startswith('stuck.')])
                 x = 2000 if case.get('stickmode') == 'sleep' else 1000
                 oc, r = bounded(lambda: w['obj'].enqueue(x))
                 st['outcome'] = oc
                 t0 = time.monotonic()
                 already = any(f.startswith('stuck.%d.' % (w['pids'][-1] if w['pids'] else me)) for f in os.listdir(flagdir)) and w['kind'] != 'thread'
-                while oc == 'ok' and not already and len(os.listdir(flagdir)) <= nflags and time.monotonic() - t0 < 10:
+                while oc == 'ok' and not already and len([f for f in os.listdir(flagdir) if f.startswith('stuck.')]) <= nflags and time.monotonic() - t0 < 10:
                     time.sleep(0.005)
-                if oc == 'ok' and not already and len(os.listdir(flagdir)) <= nflags:
+                if oc == 'ok' and not already and len([f for f in os.listdir(flagdir) if f.startswith('stuck.')]) <= nflags:
                     raise RuntimeError('harness: the worker did not reach the sticking target')
                 time.sleep(0.05)
             elif name in ('closeint', 'termint'):
